@@ -130,8 +130,9 @@ func enumerate(prop string, plan Plan, profiles []string, seed uint64, nbase int
 				}
 				mu.Lock()
 				*crashes = append(*crashes, wo)
+				nc := len(*crashes)
 				mu.Unlock()
-				if len(res)+1 >= len(part) {
+				if len(res)+1 >= len(part) || nc >= 12 {
 					break
 				}
 				part = part[len(res)+1:]
